@@ -73,48 +73,179 @@ func valueDesc(kind, tok int) string {
 	return ""
 }
 
-// classSpec: property i is declared with type parameter i. Members, in index order: the
-// direct stores `$o->prop = x` (via "prop"), the typed methods that store into the
-// property through $this (via "method"), and the typed methods that store nothing, so
-// that only the parameter declaration can reject (via "param").
+// classSpec: property i is declared with type parameter i. Top-level members, in index
+// order: the direct stores `$o->prop = x` (via "prop", public properties only), the typed
+// methods that store into the property through $this (via "method"), and the typed methods
+// that store nothing, so that only the parameter declaration can reject (via "param").
+// Peer members (written from inside a method of ANOTHER live instance of the same class,
+// op 'P'): `$other->prop = $x` (via "poke"), `$other->set($x)` (via "relay") and, when
+// the typed members are not public, `$other->hset($x)` (via "relayh", a storing method
+// with the same modifier as the properties).
 type classSpec struct {
 	name    string
+	base    int // cBox, cPair, cCell
+	vis     int // modifier of the members declared with the type parameters: 0 public, 1 protected, 2 private
+	her     int // heritage: 0 none, 1 extends a plain class, 2 extends an abstract class and implements an interface, 3 extends a class whose constructor it calls (parent::__construct), 4 implements an interface only
 	params  []string
 	props   []string
 	methods []string // methods[i](P_i $x) stores $x into props[i]
+	hidden  []string // as methods, declared with the modifier vis (only when vis != public)
 	checks  []string // checks[i](P_i $x) only declares the parameter, it stores nothing
 	ctor    bool     // the constructor stores its argument into props[0]
-}
-
-var classes = []classSpec{
-	{name: "Box", params: []string{"T"}, props: []string{"v"}, methods: []string{"set"}, checks: []string{"take"}},
-	{name: "Pair", params: []string{"K", "V"}, props: []string{"k", "v"}, methods: []string{"setK", "setV"}, checks: []string{"takeK", "takeV"}},
-	{name: "Cell", params: []string{"T"}, props: []string{"v"}, methods: []string{"set"}, checks: []string{"take"}, ctor: true},
 }
 
 const (
 	cBox = iota
 	cPair
 	cCell
+	nBases
 )
+
+const (
+	visPublic = iota
+	visProtected
+	visPrivate
+	nVis
+)
+
+const (
+	herNone = iota
+	herPlain
+	herAbstract
+	herCtor
+	herIface
+	nHer
+)
+
+const nShapes = nVis * nHer
+
+var visWords = []string{"public", "protected", "private"}
+var visSfx = []string{"", "Pt", "Pv"}
+var herSfx = []string{"", "X", "A", "C", "I"}
+
+// classes[base + nBases*shape], shape = vis + nVis*her; shape 0 is the plain public class.
+var classes = func() []classSpec {
+	bases := []classSpec{
+		{name: "Box", params: []string{"T"}, props: []string{"v"}, methods: []string{"set"}, hidden: []string{"hset"}, checks: []string{"take"}},
+		{name: "Pair", params: []string{"K", "V"}, props: []string{"k", "v"}, methods: []string{"setK", "setV"}, hidden: []string{"hsetK", "hsetV"}, checks: []string{"takeK", "takeV"}},
+		{name: "Cell", params: []string{"T"}, props: []string{"v"}, methods: []string{"set"}, hidden: []string{"hset"}, checks: []string{"take"}, ctor: true},
+	}
+	var out []classSpec
+	for her := 0; her < nHer; her++ {
+		for vis := 0; vis < nVis; vis++ {
+			for b, c := range bases {
+				c.base, c.vis, c.her = b, vis, her
+				c.name = c.name + visSfx[vis] + herSfx[her]
+				if vis == visPublic {
+					c.hidden = nil
+				}
+				out = append(out, c)
+			}
+		}
+	}
+	return out
+}()
+
+func classIndex(base, vis, her int) int { return base + nBases*(vis+nVis*her) }
+
+// parents are the non-generic declarations the heritage shapes derive from (once per file).
+const parents = `class Model { public $table = "models"; public function table() { return $this->table; } }
+abstract class Shape { abstract public function tag(); public function twice() { return $this->tag() . $this->tag(); } }
+interface Tagged { public function tag(); }
+class Owned { public $owner = ""; public function __construct($owner = "nobody") { $this->owner = $owner; } public function owner() { return $this->owner; } }
+`
 
 func (c classSpec) decl(sfx string) string {
 	var sb strings.Builder
-	fmt.Fprintf(&sb, "class %s%s<%s> {", c.name, sfx, strings.Join(c.params, ", "))
-	for i, p := range c.props {
-		fmt.Fprintf(&sb, " public %s $%s;", c.params[i], p)
+	fmt.Fprintf(&sb, "class %s%s<%s>", c.name, sfx, strings.Join(c.params, ", "))
+	switch c.her {
+	case herPlain:
+		sb.WriteString(" extends Model")
+	case herAbstract:
+		sb.WriteString(" extends Shape implements Tagged")
+	case herCtor:
+		sb.WriteString(" extends Owned")
+	case herIface:
+		sb.WriteString(" implements Tagged")
 	}
-	if c.ctor {
+	sb.WriteString(" {")
+	for i, p := range c.props {
+		fmt.Fprintf(&sb, " %s %s $%s;", visWords[c.vis], c.params[i], p)
+	}
+	switch {
+	case c.ctor && c.her == herCtor:
+		fmt.Fprintf(&sb, " public function __construct($x) { parent::__construct(\"me\"); $this->%s = $x; }", c.props[0])
+	case c.ctor:
 		fmt.Fprintf(&sb, " public function __construct($x) { $this->%s = $x; }", c.props[0])
+	case c.her == herCtor:
+		sb.WriteString(" public function __construct() { parent::__construct(\"me\"); }")
+	}
+	if c.her == herAbstract || c.her == herIface {
+		sb.WriteString(" public function tag() { return \"t\"; }")
 	}
 	for i, m := range c.methods {
 		fmt.Fprintf(&sb, " public function %s(%s $x) { $this->%s = $x; return 1; }", m, c.params[i], c.props[i])
 	}
+	for i, m := range c.hidden {
+		fmt.Fprintf(&sb, " %s function %s(%s $x) { $this->%s = $x; return 1; }", visWords[c.vis], m, c.params[i], c.props[i])
+	}
 	for i, m := range c.checks {
 		fmt.Fprintf(&sb, " public function %s(%s $x) { return 1; }", m, c.params[i])
 	}
+	for i, p := range c.props {
+		fmt.Fprintf(&sb, " public function cur_%s() { return $this->%s; }", p, p)
+		fmt.Fprintf(&sb, " public function poke_%s($other, $x) { $other->%s = $x; return 1; }", p, p)
+		fmt.Fprintf(&sb, " public function relay_%s($other, $x) { $other->%s($x); return 1; }", p, c.methods[i])
+		if len(c.hidden) > 0 {
+			fmt.Fprintf(&sb, " public function relayh_%s($other, $x) { $other->%s($x); return 1; }", p, c.hidden[i])
+		}
+	}
 	sb.WriteString(" }\n")
 	return sb.String()
+}
+
+// curExpr reads property p of the object in variable v from top-level code.
+func (c classSpec) curExpr(v string, p int) string {
+	if c.vis == visPublic {
+		return v + "->" + c.props[p]
+	}
+	return v + "->cur_" + c.props[p] + "()"
+}
+
+// topMembers lists the member indices usable from top-level code.
+func (c classSpec) topMembers(withChecks bool) []int {
+	var out []int
+	n := c.nStoreMembers()
+	if withChecks {
+		n = c.nMembers()
+	}
+	for m := 0; m < n; m++ {
+		if _, via := c.member(m); via == "prop" && c.vis != visPublic {
+			continue // a store from outside the class is a visibility matter, not a typed write
+		}
+		out = append(out, m)
+	}
+	return out
+}
+
+// nPeerMembers counts the peer members; peerMember resolves one to (property, via, method on the actor).
+func (c classSpec) nPeerMembers() int {
+	if len(c.hidden) > 0 {
+		return 3 * len(c.props)
+	}
+	return 2 * len(c.props)
+}
+
+func (c classSpec) peerMember(m int) (prop int, via string, actorMethod string) {
+	np := len(c.props)
+	p := m % np
+	switch m / np {
+	case 0:
+		return p, "poke", "poke_" + c.props[p]
+	case 1:
+		return p, "relay", "relay_" + c.props[p]
+	}
+	return p, "relayh", "relayh_" + c.props[p]
 }
 
 // member resolves a member index to (property/parameter index, via).
@@ -160,16 +291,23 @@ var paramsEnforced bool
 // steps
 
 type step struct {
-	Op     byte // 'I' instantiate, 'W' typed member write, 'R' property read
+	Op     byte // 'I' instantiate, 'W' typed member write from top-level code, 'P' member write from inside a method of another live instance, 'R' property read
 	Class  int8
 	Args   [2]int8
 	Form   int8 // 'I': 0 = `new C<..>()` in line, 1 = through a helper function (one `new` node evaluated repeatedly)
-	Inst   int8 // 'W','R': index (in creation order) of the target instance
-	Member int8 // 'W': member index; 'R': property index
-	Val    int8 // 'W': value kind; 'I' of a ctor class: kind of the constructor argument
+	Inst   int8 // 'W','P','R': index (in creation order) of the target instance
+	Actor  int8 // 'P': index of the instance whose method performs the write (same class declaration as the target)
+	Member int8 // 'W': member index; 'P': peer member index; 'R': property index
+	Val    int8 // 'W','P': value kind; 'I' of a ctor class: kind of the constructor argument
 }
 
 type sequence []step
+
+// live: does an instantiation step leave a live instance on a correct interpreter? (A
+// storing constructor handed a value of another type must fail.)
+func (s step) live() bool {
+	return s.Op == 'I' && (!classes[s.Class].ctor || accepts(s.Args[0], s.Val))
+}
 
 func argList(c classSpec, a [2]int8) string {
 	s := typeNames[a[0]]
@@ -202,6 +340,10 @@ func (q sequence) String() string {
 			} else {
 				parts = append(parts, fmt.Sprintf("#%d.%s(%s)", s.Inst, tc.memberName(int(s.Member)), valNames[s.Val]))
 			}
+		case 'P':
+			tc := classes[q.instClass(int(s.Inst))]
+			_, _, am := tc.peerMember(int(s.Member))
+			parts = append(parts, fmt.Sprintf("#%d.%s(#%d, %s)", s.Actor, am, s.Inst, valNames[s.Val]))
 		case 'R':
 			tc := classes[q.instClass(int(s.Inst))]
 			parts = append(parts, fmt.Sprintf("read #%d.%s", s.Inst, tc.props[s.Member]))
@@ -212,9 +354,9 @@ func (q sequence) String() string {
 
 // id is a compact identity of the history.
 func (q sequence) id() string {
-	b := make([]byte, 0, len(q)*8)
+	b := make([]byte, 0, len(q)*9)
 	for _, s := range q {
-		b = append(b, s.Op, byte(s.Class), byte(s.Args[0]), byte(s.Args[1]), byte(s.Form), byte(s.Inst), byte(s.Member), byte(s.Val))
+		b = append(b, s.Op, byte(s.Class), byte(s.Args[0]), byte(s.Args[1]), byte(s.Form), byte(s.Inst), byte(s.Actor), byte(s.Member), byte(s.Val))
 	}
 	return string(b)
 }
@@ -257,7 +399,7 @@ function desc($x) {
   if ($x instanceof W) { return "W:" . $x->n; }
   return "other";
 }
-`
+` + parents
 
 // renderSeq appends the declarations and the body of one sequence. sidx is the number
 // printed in the markers, sfx the suffix of the class names (so that several sequences in
@@ -338,14 +480,23 @@ func renderSeq(sb *strings.Builder, sidx int, q sequence, sfx string) {
 			} else {
 				stmt = fmt.Sprintf("%s->%s(%s);", v, c.memberName(int(s.Member)), lit)
 			}
-			cur := fmt.Sprintf("desc(%s->%s)", v, c.props[p])
+			cur := "desc(" + c.curExpr(v, p) + ")"
+			fmt.Fprintf(sb, "try { %s echo \"W %d %d accepted \", %s, \"\\n\"; } catch (\\Throwable $e) { echo \"W %d %d rejected \", %s, \" | \", $e->getMessage(), \"\\n\"; }\n",
+				stmt, sidx, j, cur, sidx, j, cur)
+		case 'P':
+			c := classes[q.instClass(int(s.Inst))]
+			p, _, am := c.peerMember(int(s.Member))
+			v := fmt.Sprintf("$q%d_i%d", sidx, s.Inst)
+			act := fmt.Sprintf("$q%d_i%d", sidx, s.Actor)
+			stmt := fmt.Sprintf("%s->%s(%s, %s);", act, am, v, valueLiteral(int(s.Val), tok))
+			cur := "desc(" + c.curExpr(v, p) + ")"
 			fmt.Fprintf(sb, "try { %s echo \"W %d %d accepted \", %s, \"\\n\"; } catch (\\Throwable $e) { echo \"W %d %d rejected \", %s, \" | \", $e->getMessage(), \"\\n\"; }\n",
 				stmt, sidx, j, cur, sidx, j, cur)
 		case 'R':
 			c := classes[q.instClass(int(s.Inst))]
 			v := fmt.Sprintf("$q%d_i%d", sidx, s.Inst)
-			fmt.Fprintf(sb, "try { echo \"R %d %d \", desc(%s->%s), \"\\n\"; } catch (\\Throwable $e) { echo \"R %d %d failed | \", $e->getMessage(), \"\\n\"; }\n",
-				sidx, j, v, c.props[s.Member], sidx, j)
+			fmt.Fprintf(sb, "try { echo \"R %d %d \", desc(%s), \"\\n\"; } catch (\\Throwable $e) { echo \"R %d %d failed | \", $e->getMessage(), \"\\n\"; }\n",
+				sidx, j, c.curExpr(v, int(s.Member)), sidx, j)
 		}
 	}
 	fmt.Fprintf(sb, "echo \"E %d\\n\";\n", sidx)
@@ -379,6 +530,7 @@ type alphabet struct {
 	classes    []int // classes that may be instantiated (cBox, cPair)
 	nVals      int   // value kinds 0..nVals-1
 	withChecks bool  // also the parameter-only methods (when the interpreter enforces parameter types)
+	withPeers  bool  // also writes performed from inside a method of any live instance of the same class (the target itself included)
 }
 
 // nextSteps lists every step that may follow the prefix q (writes on any live instance,
@@ -394,7 +546,14 @@ func (a alphabet) nextSteps(q sequence) []step {
 	if ninst < 6 {
 		for _, ci := range a.classes {
 			c := classes[ci]
-			if len(c.params) == 1 {
+			if c.ctor {
+				// the constructor stores its argument: every value kind of the alphabet
+				for t := 0; t < nTypes; t++ {
+					for v := 0; v < a.nVals; v++ {
+						out = append(out, step{Op: 'I', Class: int8(ci), Args: [2]int8{int8(t), 0}, Val: int8(v)})
+					}
+				}
+			} else if len(c.params) == 1 {
 				for t := 0; t < nTypes; t++ {
 					out = append(out, step{Op: 'I', Class: int8(ci), Args: [2]int8{int8(t), 0}})
 				}
@@ -413,13 +572,29 @@ func (a alphabet) nextSteps(q sequence) []step {
 			continue
 		}
 		c := classes[s.Class]
-		nm := c.nStoreMembers()
-		if a.withChecks {
-			nm = c.nMembers()
+		if !s.live() {
+			k++
+			continue
 		}
-		for m := 0; m < nm; m++ {
+		for _, m := range c.topMembers(a.withChecks) {
 			for v := 0; v < a.nVals; v++ {
 				out = append(out, step{Op: 'W', Inst: int8(k), Member: int8(m), Val: int8(v)})
+			}
+		}
+		if a.withPeers {
+			ka := 0
+			for _, sa := range q {
+				if sa.Op != 'I' {
+					continue
+				}
+				if sa.Class == s.Class && sa.live() {
+					for m := 0; m < c.nPeerMembers(); m++ {
+						for v := 0; v < a.nVals; v++ {
+							out = append(out, step{Op: 'P', Inst: int8(k), Actor: int8(ka), Member: int8(m), Val: int8(v)})
+						}
+					}
+				}
+				ka++
 			}
 		}
 		k++
